@@ -254,9 +254,48 @@ def run(tier, seed):
                 ctx.count("roundtrips_ok"); ctx.count("class_" + cls)
                 ctx.nontriv(text)
         ctx.legs.append(leg)
+    formerly_cyclic(ctx)
     for e in exprs[:2] + exprs[-3:]:
         ctx.sample({"expr": e})
     return ctx.finish(min_evals=1000, min_nontrivial=200)
+
+
+def formerly_cyclic(ctx):
+    """vectors that contained themselves, were displayed in that state (by display, or inside an error message) and then had the cycle removed: they are
+    ordinary vectors of the readable subset again, and every later display - alone, nested, through other objects, on a second interpreter of the thread -
+    prints their elements"""
+    rng = ctx.rng
+    jobs, meta = [], []
+    for k in range(60):
+        n = rng.randint(1, 4)
+        i = rng.randrange(n)
+        elems = [rng.randint(0, 99) for _ in range(n)]
+        how = rng.choice(["(vector-set! zv %d zv)" % i, "(vector-set! zv %d (list 1 zv))" % i, "(vector-set! zv %d (vector zv zv))" % i])
+        shown = rng.choice(["(display zv)", "(display (list zv zv))", "(car zv)", "(vector-ref zv zv)", "(display (vector 0 zv))"])
+        txt = "#(%s)" % " ".join(map(str, elems))
+        steps = [{"it": 0, "src": "(define zv (vector %s))" % " ".join(map(str, elems))}, {"it": 0, "src": "(define zw (vector 'w zv))"}, {"it": 0, "src": how},
+                 {"it": 0, "src": shown, "disp": True}] * 1
+        steps += [{"it": 0, "src": "(vector-set! zv %d %d)" % (i, elems[i])}]
+        checks = [("zv", txt), ("(list zv zv)", "(%s %s)" % (txt, txt)), ("zw", "#(w %s)" % txt), ("(vector zv (cons 1 zv))", "#(%s (1 . %s))" % (txt, txt))]
+        steps += [{"it": 0, "src": e, "disp": True} for e, _ in checks]
+        # an equal vector made afterwards on ANOTHER interpreter of the same thread
+        steps += [{"it": 1, "src": "(vector %s)" % " ".join(map(str, elems)), "disp": True}]
+        jobs.append({"id": "c16fc", "interps": [{"stdlib": True}, {"stdlib": True}], "steps": steps, "fuel": 50000}); meta.append((how, shown, checks + [("other interpreter", txt)]))
+    recs = core.run_jobs(jobs, "dev", timeout=600, tag="c16fc")
+    for (how, shown, checks), rec in zip(meta, recs):
+        if rec is None or "steps" not in rec:
+            ctx.inconclusive_cases += 1; continue
+        st = rec["steps"][5:]
+        for (e, want), r in zip(checks, st):
+            ctx.evaluations += 1
+            k, v = core.outcome(r)
+            got = v.get("disp") if k == "ok" and isinstance(v, dict) else None
+            if got != want:
+                ctx.violation({"what": "a vector that contained itself earlier (and was displayed then) does not print its elements after the cycle was removed", "kind": "formerly-cyclic",
+                               "made_cyclic_by": how, "displayed_by": shown, "expr": e, "expected": want, "observed": got if got is not None else r, "dedupe": "fc|" + e}, {"expr": e, "how": how, "shown": shown})
+            else:
+                ctx.count("formerly_cyclic_prints_ok")
+    ctx.legs.append("formerly-cyclic")
 
 
 def replay(path):
